@@ -4,15 +4,15 @@ from __future__ import annotations
 
 import json
 
-from . import spec
+from . import probe, spec
 
 DELIMS = [":", ":", ":", "/", "::", "_", "|"]
 U_ATOMS = [
     "", "h", "http://x/", "http://x/a", "http://x/a_", "http://x/a/", "http://x/A_", "GO:",
-    "http://é/", "u#", "GO", "http", "http://x/a_b", "urn:x:", "a", "a:", "http://y#", "https://x/",
+    "http://é/", "u#", "GO", "http", "http://x/a_b", "urn:x:", "a", "a:", "http://y#", "https://x/", "http://x/ß", "http://x/ς",
 ]
 U_EXT = "_/#aA1é:b"
-P_ATOMS = ["a", "A", "b", "ab", "a.b", "GO", "go", "http", "é", "", "B", "x y", "a_b", "urn", "GO:x", "a/b", "p|q", " a", "a ", "1", "http://x/", "ſ", "İ", "a\nb"]
+P_ATOMS = ["a", "A", "b", "ab", "a.b", "GO", "go", "http", "é", "", "B", "x y", "a_b", "urn", "GO:x", "a/b", "p|q", " a", "a ", "1", "http://x/", "ſ", "İ", "a\nb", "ß", "ς", "obo:go"]
 IDS = ["", "1", "0001", "a/b", "a#b", "a b", "é", "x", "a_1", "A_", "//x", "b", "_", "GO:1", "a\nb", "?q=1&r=2", "a%20b", " 1", "1 ", "x" * 300, "\t"]
 UNICODE = ["日本", "é́", "😀", "ß", "İ", "ǅ", "​", "퟿", "\U0010ffff"]
 PATTERNS = [None, None, "^\\d+$", "^[A-Z]{2}\\d{4}$", "", "a|b", "\\\\"]
@@ -57,8 +57,10 @@ def prefix_pool(rng, n, delimiter, allow_delim=False):
     return pool
 
 
-def records(rng, delimiter=":", nmin=0, nmax=6, allow_delim=False, patterns=False, max_syn=2):
+def records(rng, delimiter=":", nmin=0, nmax=6, allow_delim=False, patterns=None, max_syn=2):
     """A clash-free list of spec.Rec (valid input for a strict Converter)."""
+    if patterns is None:
+        patterns = rng.random() < 0.25  # the pattern of a record is documentation: no query may depend on it
     n = rng.randint(nmin, nmax)
     ups = uri_pool(rng, n * (1 + max_syn) + 1)
     pps = prefix_pool(rng, n * (1 + max_syn) + 1, delimiter, allow_delim)
@@ -86,13 +88,69 @@ def mk_record(api, r: spec.Rec):
     return api.Record(**json.loads(json.dumps(spec.rec_dict(r))))
 
 
+def _fold_distinct(recs):
+    """No two strings of `recs` (CURIE side, URI side) are equal up to letter case unless they are the same string."""
+    for side in (spec.all_p, spec.all_u):
+        strings = {x for r in recs for x in side(r)}
+        if len({x.casefold() for x in strings}) != len(strings):
+            return False
+    return True
+
+
+UNIQUE_RECORD_PROPS = {"C02", "C06"}
+ROUTES = ["ctor", "ctor", "incremental", "mixed", "grown-by-merge", "re-added-case-insensitively"]
+
+
 def build(api, recs, delimiter, rng, how=None):
-    """Build a real converter from plain records: constructor or incremental, in a random order."""
+    """Build a real converter from plain records: constructor or incremental, in a random order.
+
+    One build in four runs with the monitors switched off (monitors read public attributes such as `trie`, and an
+    implementation that defers work until such an attribute is read would otherwise never be seen in its deferred state).
+    """
+    how = how or rng.choice(ROUTES)
+    if how == "re-added-case-insensitively" and not _fold_distinct(recs):
+        how = "ctor"
+    if rng.random() < 0.25:
+        probe.S.counters["wl:built-unobserved"] += 1
+        with probe.monitor_mode():
+            c, how = _build(api, recs, delimiter, rng, how)
+    else:
+        c, how = _build(api, recs, delimiter, rng, how)
+    if probe.S.prop in UNIQUE_RECORD_PROPS:
+        # "its unique record": a converter grown from a clash-free map through the public API has one owner per string
+        probe.evaluated("built-converter-has-one-owner-per-string")
+        now = spec.snapshot(c)
+        if not spec.is_unique(now):
+            probe.violation([probe.S.prop], "built-converter-has-one-owner-per-string", f"string-claimed-by-two-records-after-{how}",
+                            intended_records=[spec.rec_dict(r) for r in recs], records=[spec.rec_dict(r) for r in now], delimiter=delimiter)
+    return c, how
+
+
+def _build(api, recs, delimiter, rng, how):
     order = list(recs)
     rng.shuffle(order)
-    how = how or rng.choice(["ctor", "ctor", "incremental", "mixed", "grown-by-merge"])
     if how == "ctor":
         return api.Converter([mk_record(api, r) for r in order], delimiter=delimiter), how
+    if how == "re-added-case-insensitively":
+        # every record is registered, then registered again through a case-insensitive merge (in pieces or whole):
+        # no two strings of the map differ only by letter case, so every piece must find its own record and nothing else
+        c = api.Converter([mk_record(api, r) for r in order if rng.random() < 0.6], delimiter=delimiter)
+        for r in rng.sample(order, k=len(order)):
+            style = rng.random()
+            if style < 0.4:
+                if r.pattern:
+                    c.add_record(api.Record(prefix=r.prefix, uri_prefix=r.uri_prefix, pattern=r.pattern), case_sensitive=False, merge=True)
+                c.add_prefix(r.prefix, r.uri_prefix, list(r.psyn), list(r.usyn), case_sensitive=False, merge=True)
+            elif style < 0.7:
+                c.add_record(mk_record(api, r), case_sensitive=False, merge=True)
+                c.add_record(api.Record(prefix=r.prefix, uri_prefix=r.uri_prefix), case_sensitive=False, merge=True)
+            else:
+                c.add_record(api.Record(prefix=r.prefix, uri_prefix=r.uri_prefix, pattern=r.pattern), case_sensitive=False, merge=True)
+                for x in r.psyn:
+                    c.add_prefix(x, r.uri_prefix, case_sensitive=False, merge=True)
+                for x in r.usyn:
+                    c.add_prefix(r.prefix, x, case_sensitive=False, merge=True)
+        return c, how
     if how == "grown-by-merge":
         # records that start as bare (prefix, URI prefix) pairs - synonym fields never set - and acquire
         # their synonyms later through merges: the same content as `recs`, but objects with a past
